@@ -192,7 +192,16 @@ impl ArtefactMedium {
         Model {
             version: rng.next() as u32,
             ins: (0..n_in)
-                .map(|_| MIn { txid: rng.bytes(32), vout: rng.next() as u32, script: if rng.chance(1, 2) { vec![] } else { Self::gen_script_bytes(rng, false) }, seq: rng.next() as u32 })
+                .map(|_| {
+                    // coinbase-shaped inputs (null outpoint) take a different path through the reader
+                    let coinbase = rng.chance(1, 5);
+                    MIn {
+                        txid: if coinbase { vec![0u8; 32] } else { rng.bytes(32) },
+                        vout: if coinbase { 0xffff_ffff } else { rng.next() as u32 },
+                        script: if rng.chance(1, 2) { vec![] } else { Self::gen_script_bytes(rng, false) },
+                        seq: rng.next() as u32,
+                    }
+                })
                 .collect(),
             outs: (0..n_out).map(|_| MOut { value: rng.next(), script: Self::gen_script_bytes(rng, false) }).collect(),
             locktime: rng.next() as u32,
@@ -216,6 +225,37 @@ impl ArtefactMedium {
             p += varint(o.script.len() as u64).len() + o.script.len();
         }
         offs
+    }
+
+    /// offsets and head lengths of every byte-string / text / array / map head in a CBOR document
+    fn cbor_heads(b: &[u8]) -> Vec<(usize, usize)> {
+        let mut out = vec![];
+        let mut p = 0;
+        while p < b.len() {
+            let ib = b[p];
+            let major = ib >> 5;
+            let ai = ib & 0x1f;
+            let (head, val): (usize, u64) = match ai {
+                0..=23 => (1, ai as u64),
+                24 => (2, *b.get(p + 1).unwrap_or(&0) as u64),
+                25 => (3, u16::from_be_bytes([*b.get(p + 1).unwrap_or(&0), *b.get(p + 2).unwrap_or(&0)]) as u64),
+                26 => (5, 0),
+                27 => (9, 0),
+                _ => (1, 0),
+            };
+            match major {
+                2 | 3 => {
+                    out.push((p, head));
+                    p += head + val as usize;
+                }
+                4 | 5 => {
+                    out.push((p, head));
+                    p += head;
+                }
+                _ => p += head,
+            }
+        }
+        out
     }
 
     /// A valid artefact for `kind`, plus offsets of known length fields inside its binary form.
@@ -292,6 +332,10 @@ impl ArtefactMedium {
             "txin_hex" | "txin_cbor" | "txin_cbor_hex" | "json_txin" => {
                 let script = Self::gen_script_bytes(rng, false);
                 let mut b = rng.bytes(36);
+                if rng.chance(1, 4) {
+                    b = vec![0u8; 32];
+                    b.extend([0xff; 4]);
+                }
                 let off = b.len();
                 b.extend(varint(script.len() as u64));
                 b.extend(&script);
@@ -449,7 +493,16 @@ impl ArtefactMedium {
             "aes128cbc_ct" => (AES::encrypt(&[1u8; 16], &[3u8; 16], &rng.bytes(40), AESAlgorithms::AES128_CBC).unwrap_or_default(), vec![]),
             "aes256cbc_ct" => (AES::encrypt(&[1u8; 32], &[3u8; 16], &rng.bytes(40), AESAlgorithms::AES256_CBC).unwrap_or_default(), vec![]),
             "aes_ctr_ct" => (rng.bytes(50), vec![]),
-            "digest_verify" | "digest_sign" | "digest_recover" => (rng.bytes(32), vec![]),
+            "digest_verify" | "digest_sign" | "digest_recover" => (
+                match rng.below(6) {
+                    0 => hex::decode("fffffffffffffffffffffffffffffffebaaedce6af48a03bbfd25e8cd0364141").unwrap(),
+                    1 => vec![0xff; 32],
+                    2 => vec![0u8; 32],
+                    3 => hex::decode("fffffffffffffffffffffffffffffffebaaedce6af48a03bbfd25e8cd0364142").unwrap(),
+                    _ => rng.bytes(32),
+                },
+                vec![],
+            ),
             "sighash_flag" => (vec![*rng.pick(&crate::scen_txhist::FLAGS)], vec![]),
             _ => (vec![], vec![]),
         }
@@ -459,6 +512,8 @@ impl ArtefactMedium {
         "00", "fc", "fdfd00", "fdffff", "fe00000100", "fe00000080", "feffffffff", "ff0000000001000000", "ff0000000000000080", "ffffffffffffffffff", // compact-size
         "4cff", "4dffff", "4e00000100", "4e00008000", "4effffffff", "4e00000080", // pushdata
         "5affffffff", "5b000000ffffffffff", "5bffffffffffffffff", "7affffffff", "7bffffffffffffffff", "9affffffff", "9bffffffffffffffff", "baffffffff", "bbffffffffffffffff", "9f", "bf", "5f", // CBOR heads
+        "5a10000000", "7a10000000", "9a10000000", "ba10000000", "9a00400000", "5a00400000", "9b0000000100000000", "991000", "59ffff", // moderately large CBOR counts (2^28, 2^22, 2^32, 4096, 65535)
+        "fe00000010", "fe00004000", // compact-size 2^28, 2^22
     ];
 }
 
@@ -580,6 +635,7 @@ impl Scenario for ArtefactMedium {
         let deep = if deep_capable { deep } else { 0 };
         let (bin, offs) = guard(|| Self::produce(rng, kind, deep)).unwrap_or((vec![], vec![]));
         let as_hex = hex_of_binary(kind);
+        let cbor_heads: Vec<(usize, usize)> = if kind.contains("cbor") { Self::cbor_heads(&bin) } else { vec![] };
         // deep artefacts are stored by recipe (kind, n) so plans and replay files stay small
         let mut events = if deep > 0 { vec![json!({"op": "store_deep", "kind": kind, "n": deep})] } else { vec![json!({"op": "store", "kind": kind, "data": hx(&bin), "hex_text": as_hex})] };
         let mut len = bin.len();
@@ -591,8 +647,14 @@ impl Scenario for ArtefactMedium {
                 1 => json!({"f": "flip", "pos": if len > 0 { rng.usize(len) } else { 0 }, "bit": rng.below(8)}),
                 2 => json!({"f": "set", "pos": if len > 0 { rng.usize(len) } else { 0 }, "val": *rng.pick(&[0u64, 0xff, 0xfd, 0xfe, 0x4c, 0x4d, 0x4e, 0x63, 0x68, 0x80, 0x7f])}),
                 3 => {
-                    let pos = if !offs.is_empty() && rng.chance(3, 4) { *rng.pick(&offs) } else if len > 0 { rng.usize(len + 1) } else { 0 };
-                    json!({"f": "inflate", "pos": pos, "pat": *rng.pick(Self::INFLATE), "replace": *rng.pick(&[0u64, 1, 1, 1, 3, 5, 9])})
+                    if !cbor_heads.is_empty() && rng.chance(3, 4) {
+                        // replace one CBOR head by another head (any major type) that declares an extreme length
+                        let (pos, hl) = *rng.pick(&cbor_heads);
+                        json!({"f": "inflate", "pos": pos, "pat": *rng.pick(&Self::INFLATE[16..]), "replace": hl})
+                    } else {
+                        let pos = if !offs.is_empty() && rng.chance(3, 4) { *rng.pick(&offs) } else if len > 0 { rng.usize(len + 1) } else { 0 };
+                        json!({"f": "inflate", "pos": pos, "pat": *rng.pick(Self::INFLATE), "replace": *rng.pick(&[0u64, 1, 1, 1, 2, 3, 5, 9])})
+                    }
                 }
                 4 => {
                     let n = rng.range(1, 40) as usize;
@@ -737,7 +799,13 @@ impl Scenario for ArtefactMedium {
                                     ctx.probe(&format!("fault_free_err:{}", to));
                                 }
                             }
-                            let _ = largest;
+                            // no single request may be sized by a declared length either: serde's cautious pre-allocation
+                            // is capped at 1 MiB per sequence and growth by doubling is bounded by the bytes really present
+                            if largest > ALPHA * input.len() + (2 << 20) {
+                                if ctx.violate("alloc", format!("alloc-single-request@{}", label), format!("{} asked the allocator for {} bytes in one request while decoding a {}-byte input (limit {}*len + 2 MiB)", label, largest, input.len(), ALPHA)) {
+                                    return;
+                                }
+                            }
                         }
                         Err(p) => {
                             let sig = format!("panic@{}#{}", site_file(&p.site), label);
